@@ -345,7 +345,7 @@ func ruleR12(p *Prog) []Ob {
 		judge("readonly:Log."+name, []string{"C19"}, p.R.ImplMethods[name], ro, name == "Backup")
 	}
 	for _, name := range []string{"Consume", "ConsumeByKey", "Get", "GetByKey", "OffsetByKey", "GetByTime", "OffsetByTime", "NextOffset", "Stat", "GC", "Size"} {
-		judge("query:Log."+name, []string{"C19", "C08"}, p.R.ImplMethods[name], nil, false)
+		judge("query:Log."+name, []string{"C19", "C08", "C11"}, p.R.ImplMethods[name], nil, false)
 	}
 	judge("backup:Log.Backup", []string{"C20", "C19"}, p.R.ImplMethods["Backup"], nil, true)
 	judge("backup:klevdb.Backup", []string{"C20"}, p.pkgFunc(pkgRoot, "Backup"), nil, true)
